@@ -19,7 +19,8 @@ MOD, VEC, REC, ASM = ("moclo/moclo/core/modules.py", "moclo/moclo/core/vectors.p
 FILES = [MOD, VEC, REC, ASM]
 FUNCTIONS = [(REC, "CircularRecord.reverse_complement"), (MOD, "AbstractModule.target_sequence"),
              (VEC, "AbstractVector.target_sequence"), (MOD, "AbstractModule.overhang_start"), (MOD, "AbstractModule.overhang_end"),
-             ("moclo/moclo/core/_structured.py", "StructuredRecord._get_regex"), ("moclo/moclo/core/_structured.py", "StructuredRecord._match")]
+             ("moclo/moclo/core/_structured.py", "StructuredRecord._get_regex"), ("moclo/moclo/core/_structured.py", "StructuredRecord._match"),
+             (MOD, "AbstractModule.structure"), (VEC, "AbstractVector.structure")]
 ASSUMES = ["rc axioms (definitions.rst): involutive, length-preserving, rc(x.y) = rc(y).rc(x)", "D-RE", "D-RESTR", "D-REC-RC",
            "RE5 mirror: a pattern whose class word is its own reverse complement matches rc(w) exactly when it matches w, with the "
            "groups mirrored (semantics of re; the mirror property of every derived structure is checked literally)",
